@@ -138,6 +138,11 @@ func (g *typeGen) desc(t *rapid.T, depth, ctx int) Desc {
 		if rapid.IntRange(0, 3).Draw(t, "arraysmall") > 0 && n > 4 {
 			n = lo + n%4
 		}
+		if ctx == ctxElem && rapid.IntRange(0, 2).Draw(t, "arraybig") == 0 {
+			// large fixed-size elements: the Go size of an element is far above one byte, so memory reserved
+			// per byte of the vector instead of per element shows at KB scale
+			n = pick(t, "arraybiglen", 256, 257, 512, 1000, 1024, 2048, 4096)
+		}
 		return Desc{K: KArray, N: n}
 	case KBytes:
 		mn, mx := genBounds(t, false)
@@ -147,6 +152,11 @@ func (g *typeGen) desc(t *rapid.T, depth, ctx int) Desc {
 		e := g.desc(t, depth+1, ctxElem)
 		if e.minWidth() == 0 { // zero-width elements are outside the domain: pad with one byte
 			e = Desc{K: KStruct, Fields: []Field{{D: Desc{K: KU8}}, {D: e}}}
+		}
+		if w := e.minWidth(); w > 40 {
+			// wide elements: bounds that admit a few of them
+			mx = pick[uint64](t, "widemax", w, 2*w, 4*w+3, 65535, 70000, 1<<24-1, 1<<32)
+			mn = pick[uint64](t, "widemin", 0, 0, 0, 1, w)
 		}
 		return Desc{K: KVec, Min: mn, Max: mx, Elem: &e, TagRev: rapid.IntRange(0, 4).Draw(t, "tagrev") == 0}
 	case KStruct:
@@ -332,6 +342,11 @@ func (g *valGen) val(t *rapid.T, d *Desc) Val {
 		target := g.length(t, d.Min, d.Max)
 		if g.depth >= maxRefDepth && d.Elem.hasRef() {
 			target = d.Min // stop the recursion through a vector of itself
+		} else if w := d.Elem.minWidth(); w > 40 {
+			// wide elements: aim at 0-4 of them rather than at a number of bytes
+			if k := uint64(rapid.IntRange(0, 4).Draw(t, "wideelems")) * w; k > target {
+				target = min(k, d.Max)
+			}
 		}
 		var v Val
 		var total uint64
